@@ -244,10 +244,42 @@ func report(r *core.Run, k kase, first []finding) {
 	if n > 4 {
 		return
 	}
+	// A determinism finding is about two runs differing, so it cannot be
+	// re-confirmed by demanding the same difference again: minify up to 40
+	// more times and require a second distinct result.
+	var det []finding
+	var rest []finding
+	for _, f := range first {
+		if f.Check == "deterministic" {
+			det = append(det, f)
+		} else {
+			rest = append(rest, f)
+		}
+	}
+	if len(det) > 0 {
+		if distinctResults(k, 40) > 1 {
+			for _, f := range det {
+				r.Violate("c17", classOf(f, k.Opt, k.Sig), k, f.Expected, f.Got, "")
+			}
+		} else {
+			r.Flaky(map[string]any{"case": k, "first": "deterministic", "rerun": "40 further minifications were identical"})
+		}
+	}
+	if len(rest) == 0 {
+		return
+	}
+	first = rest
+	want = findingChecks(first)
 	for i := 0; i < 5; i++ {
 		again := checkCase(k)
-		if findingChecks(again) != want {
-			r.Flaky(map[string]any{"case": k, "first": want, "rerun": findingChecks(again)})
+		var keep []finding
+		for _, f := range again {
+			if f.Check != "deterministic" {
+				keep = append(keep, f)
+			}
+		}
+		if findingChecks(keep) != want {
+			r.Flaky(map[string]any{"case": k, "first": want, "rerun": findingChecks(keep)})
 			return
 		}
 	}
@@ -271,6 +303,20 @@ func report(r *core.Run, k kase, first []finding) {
 		}
 		r.Violate("c17", classOf(f, k.Opt, tags), k, f.Expected, f.Got, "")
 	}
+}
+
+// distinctResults minifies the case n times and counts distinct (output, map) results.
+func distinctResults(k kase, n int) int {
+	seen := map[string]bool{}
+	for i := 0; i < n; i++ {
+		m, err := minifyOnce(k.Files, k.Opt)
+		if err != nil {
+			seen["error: "+err.Error()] = true
+			continue
+		}
+		seen[strings.Join(m.outs, "\x00")+"\x01"+m.mapTxt] = true
+	}
+	return len(seen)
 }
 
 func run(r *core.Run) {
@@ -422,6 +468,11 @@ func replay(v core.Violation) (bool, string) {
 	fs := checkCase(k)
 	var b strings.Builder
 	fmt.Fprintf(&b, "option %s\nfiles %q\nprobes %v\n", k.Opt.Name, k.Files, k.Probes)
+	if strings.HasPrefix(v.Class, "deterministic:") {
+		n := distinctResults(k, 200)
+		fmt.Fprintf(&b, "200 minifications gave %d distinct results\n", n)
+		return n > 1, b.String()
+	}
 	for _, f := range fs {
 		fmt.Fprintf(&b, "FAILED %s\n  expected %s\n  got      %s\n", f.Check, f.Expected, f.Got)
 	}
